@@ -45,8 +45,9 @@ ASSUMPTIONS = [
     "indices have been replaced on the tensor; the sign clause is decided under the weaker contract 'some renaming by "
     "transpositions onto low non-target names' (scenario 'unsorted groups')",
     "bounded: the listed scenarios (tensors of rank <= 6, at most three occurrences, exponents <= 3)",
-    "the re-contraction (round trip) is decided for terms with one occurrence of the tensor; for several occurrences "
-    "only the closed formula is compared",
+    "the re-contraction (round trip) is decided term by term (one term, any number of occurrences: B x D'_1 x ... x D'_n = "
+    "kappa_1 ... kappa_n x term); for expressions of several terms the closed formula is compared; derivative with a "
+    "target index on the tensor: closed formula only",
     "which of several occurrences is removed first is taken from the model's object order (canonical order of factors)",
 ]
 
@@ -345,18 +346,16 @@ def remove_scenarios():
     a(Sc("provided targets", "R14c", "target indices given explicitly", A("d", "k", "c") * N("x", "kcia"), "d", target="ia"))
     a(Sc("provided targets on tensor", "R14c", "explicit target indices on the tensor", A("d", "i", "c") * N("x", "ca"), "d", target="ia"))
     # R14d: exponents
-    a(Sc("square", "R14d", "5 (d^k_c)^2", num(5) * A("d", "k", "c") ** 2, "d", roundtrip=False))
-    a(Sc("cube", "R14d", "(f^k_c)^3 with bra-ket symmetry", A("f", "k", "c", 1) ** 3, "f", roundtrip=False))
-    a(Sc("square and single", "R14d", "(d^k_c)^2 d^l_e w_le", A("d", "k", "c") ** 2 * A("d", "l", "e") * N("w", "le"), "d", roundtrip=False))
+    a(Sc("square", "R14d", "5 (d^k_c)^2", num(5) * A("d", "k", "c") ** 2, "d"))
+    a(Sc("cube", "R14d", "(f^k_c)^3 with bra-ket symmetry", A("f", "k", "c", 1) ** 3, "f"))
+    a(Sc("square and single", "R14d", "(d^k_c)^2 d^l_e w_le", A("d", "k", "c") ** 2 * A("d", "l", "e") * N("w", "le"), "d"))
     a(Sc("inverse", "R14d", "exponent -1 refused", A("d", "k", "c") ** -1 * N("w", "kc"), "d", roundtrip=False))
     a(Sc("other power", "R14d", "powers of other tensors stay", A("d", "k", "c") * N("w", "kc") ** 2, "d"))
     # R14e: occurrences, terms, keys, guards
-    a(Sc("two symmetric", "R14e", "f_ij f_jk z_ki with bra-ket symmetric f", A("f", "i", "j", 1) * A("f", "j", "k", 1) * N("z", "ki"), "f",
-         roundtrip=False))
-    a(Sc("two antisym", "R14e", "V^ij_ab V^kl_ab w_ijkl", A("V", "ij", "ab") * A("V", "kl", "ab") * N("w", "ijkl"), "V", roundtrip=False))
-    a(Sc("two blocks", "R14e", "d_kc d_lm x_kclm: blocks of different spaces", A("d", "k", "c") * A("d", "l", "m") * N("x", "kclm"), "d",
-         roundtrip=False))
-    a(Sc("three", "R14e", "three occurrences", N("z", "k") * N("z", "l") * N("z", "m") * N("x", "klm"), "z", roundtrip=False))
+    a(Sc("two symmetric", "R14e", "f_ij f_jk z_ki with bra-ket symmetric f", A("f", "i", "j", 1) * A("f", "j", "k", 1) * N("z", "ki"), "f"))
+    a(Sc("two antisym", "R14e", "V^ij_ab V^kl_ab w_ijkl", A("V", "ij", "ab") * A("V", "kl", "ab") * N("w", "ijkl"), "V"))
+    a(Sc("two blocks", "R14e", "d_kc d_lm x_kclm: blocks of different spaces", A("d", "k", "c") * A("d", "l", "m") * N("x", "kclm"), "d"))
+    a(Sc("three", "R14e", "three occurrences", N("z", "k") * N("z", "l") * N("z", "m") * N("x", "klm"), "z"))
     a(Sc("terms", "R14e", "several terms: same block twice, another block, a term without the tensor",
          A("d", "k", "c") * N("x", "kc") + num(2) * A("d", "l", "e") * N("y", "le") + A("d", "k", "l") * N("u", "kl")
          + num(7) * N("q", "mn") * N("p", "mn"), "d"))
@@ -423,6 +422,11 @@ def _evaluate(ctx, fnref, sc, make_args):
     if o.kind == "raise":
         return "raise", o.exc, w
     return "return", o.value, w
+
+
+def _n_occurrences(term: Poly, t_name):
+    (m, c), = term.t.items()
+    return sum(e for f, e in m if talg.factor_name(f) == t_name)
 
 
 def _proportional(got: Poly, want: Poly):
@@ -545,10 +549,6 @@ def check_remove(ctx, scenarios=None, guards=True, label=""):
             continue
         # the tensor whose symmetry is applied: the removed one on the minimised indices
         built = [e for e in w.effects if e[0] == "tensor" and e[2] == sc.t]
-        wanted = []
-        for term, rest, D, rm in trace:
-            f = rm.tensor
-            wanted.append(("tensor", f[1], f[2], None, None, f[5]) if f[0] == "A" else ("tensor", "NonSymmetricTensor", f[1], None, None, None))
         got_f = []
         for e in built:
             try:
@@ -557,33 +557,54 @@ def check_remove(ctx, scenarios=None, guards=True, label=""):
                 s, f = 0, None
             got_f.append(f)
         want_f = [rm.tensor for _, _, _, rm in trace]
-        ok = sorted(map(repr, got_f)) == sorted(map(repr, want_f))
+        # (a tensor of that name that is built has to be one of the removed ones; building it through the constructor is
+        # not required - the symmetrisation itself is decided on the values)
+        ok = all(f in want_f for f in got_f)
         ctx.check("R14a", fn, ok, f"remove_tensor [{sc.what}]: symmetry taken from the removed tensor on the minimised indices "
                   f"(class, name, index groups, bra-ket symmetry kept)",
                   f"remove_tensor on {sc.what} ({_show(sc.expr, 120)}): the tensor rebuilt on the minimised indices is "
                   f"{[talg.show_factor(f) if f else '0' for f in got_f]} (constructor calls {built}); the removed tensor on these "
                   f"indices is {[talg.show_factor(f) for f in want_f]}", key=f"remove_tensor {sc.id} rebuilt")
-        if len(trace) != 1 or not sc.roundtrip:
+        if not sc.roundtrip or len(sc.expr.t) != 1 or not trace:
             continue
-        term, rest, D, rm = trace[0]
-        (block,) = [k for k in val if k != ("none",)]
-        B = val[block].attrs["val"]
-        # R14b (i): the block expression carries the symmetry of the tensor block
-        bad = [(seq, chi) for seq, chi in rm.group if B.permute(seq) != B * chi]
-        ctx.check("R14b", fn, not bad, f"remove_tensor [{sc.what}]: g(B) = chi(g) B for the {len(rm.group)} operations of {talg.show_factor(rm.tensor)}",
-                  f"remove_tensor on {sc.what} ({_show(sc.expr, 120)}): the block expression {_show(B, 200)} is not "
-                  f"{'anti' if bad and bad[0][1] < 0 else ''}symmetric under {bad[0][0] if bad else ''} although the removed tensor block "
-                  f"{talg.show_factor(rm.tensor)} is", key=f"remove_tensor {sc.id} symmetry")
-        # R14b (ii): contracting the block expression with the tensor block gives kappa times the original term
+        blocks = [k for k in val if k != ("none",)]
+        if len(blocks) != 1:
+            continue
+        B = val[blocks[0]].attrs["val"]
+        term = trace[0][0]
+        if len(trace) == 1:
+            # R14b (i): the block expression carries the symmetry of the tensor block
+            rm = trace[0][3]
+            bad = [(seq, chi) for seq, chi in rm.group if B.permute(seq) != B * chi]
+            ctx.check("R14b", fn, not bad,
+                      f"remove_tensor [{sc.what}]: g(B) = chi(g) B for the {len(rm.group)} operations of {talg.show_factor(rm.tensor)}",
+                      f"remove_tensor on {sc.what} ({_show(sc.expr, 120)}): the block expression {_show(B, 200)} is not "
+                      f"{'anti' if bad and bad[0][1] < 0 else ''}symmetric under {bad[0][0] if bad else ''} although the removed tensor "
+                      f"block {talg.show_factor(rm.tensor)} is", key=f"remove_tensor {sc.id} symmetry")
+        # R14b (ii): contracting the block expression with the removed tensor blocks gives kappa times the original term
+        n_occ = len(blocks[0])
+        levels = []
+        for k in range(n_occ):
+            cands = [t[3] for t in trace if _n_occurrences(t[0], sc.t) == n_occ - k]
+            tens, kap = {c.tensor for c in cands}, {c.kappa for c in cands}
+            if len(tens) != 1 or len(kap) != 1:
+                levels = None
+                break
+            levels.append((tens.pop(), kap.pop()))
+        if not levels:
+            continue
         (m, c), = term.t.items()
         tg = sc.target if sc.target is not None else talg.einstein_target(m)
-        lhs = B * Poly.factor(rm.tensor)
-        rhs = term * rm.kappa
-        eq, ca, cb = talg.contraction_equal(lhs, rhs, tg)
+        lhs, kappa = B, Poly.num(1)
+        for t, kp in levels:
+            lhs = lhs * Poly.factor(t)
+            kappa = kappa * kp
+        shown = " x ".join(talg.show_factor(t) for t, _ in levels)
+        eq, ca, cb = talg.contraction_equal(lhs, term * kappa, tg)
         ctx.check("R14b" if same else sc.rule, fn, eq,
-                  f"remove_tensor [{sc.what}]: B x {talg.show_factor(rm.tensor)} = {_show(rm.kappa, 40)} x the original term",
-                  f"remove_tensor on {sc.what} ({_show(sc.expr, 120)}): the block expression contracted with the tensor block "
-                  f"{talg.show_factor(rm.tensor)} gives {_show(ca, 200)}; {_show(rm.kappa, 40)} times the original term is {_show(cb, 200)} "
+                  f"remove_tensor [{sc.what}]: B x {shown} = {_show(kappa, 40)} x the original term",
+                  f"remove_tensor on {sc.what} ({_show(sc.expr, 120)}): the block expression contracted with the tensor block(s) "
+                  f"{shown} gives {_show(ca, 200)}; {_show(kappa, 40)} times the original term is {_show(cb, 200)} "
                   f"(contracted indices renamed canonically, deltas resolved)", key=f"remove_tensor {sc.id} round trip")
     ctx.floor("R14a", f"remove_tensor {label} scenarios evaluated".replace("  ", " "), n, 40)
     # input guards
